@@ -261,7 +261,7 @@ def build_value(d):
 
 
 # every kind of original error: the message must render and end the text
-N_MESSAGE = 24 + 5 * 4 * 3 + 1
+N_MESSAGE = 24 + 5 * 4 * 3 + 1 + 5
 
 
 def message_cases():
@@ -303,7 +303,31 @@ def message_cases():
         # a callable that runs a nested glom, logs (stringifies) its error and lets it propagate
         ('nested-logged', {'a': {'x': {}}}, ('a', _logging_nested)),
         ('nested-plain', {'a': {'x': {}}}, ('a', _plain_nested)),
-    ] + guard_cases()
+    ] + guard_cases() + note_cases()
+
+
+def _noted(n, cls_name='GlomError'):
+    def fail(t):
+        import glom
+        e = getattr(glom, cls_name)('first failure %d' % n) if cls_name == 'GlomError' else ValueError('first failure %d' % n)
+        e.add_note('while reading field %d' % n)
+        raise e
+    fail.__name__ = 'noted%d' % n
+    return fail
+
+
+def note_cases():
+    """the error that ended an abandoned branch carries a PEP 678 note: its class and message are shown (and the note)"""
+    from glom import Coalesce, Or, Switch, T, Val
+    t = {'a': 1}
+    return [
+        ('note:coalesce', t, Coalesce(_noted(1), 'zz'), ['GlomError: first failure 1', 'while reading field 1']),
+        ('note:coalesce-skip-exc', t, Coalesce(_noted(2, 'ValueError'), 'zz', skip_exc=(ValueError, LookupError)),
+         ['ValueError: first failure 2', 'while reading field 2']),
+        ('note:or', t, Or(_noted(3), 'zz'), ['GlomError: first failure 3', 'while reading field 3']),
+        ('note:switch', t, Switch([(_noted(4), Val(1)), (T['zz'], Val(2))]), ['GlomError: first failure 4', 'while reading field 4']),
+        ('note:nested', t, ('a', Coalesce((T, _noted(5)), (T, _noted(6)))), ['GlomError: first failure 5', 'GlomError: first failure 6']),
+    ]
 
 
 def guard_cases():
@@ -342,7 +366,9 @@ def _plain_nested(t):
 
 def run_message(case):
     import glom
-    name, target, spec = message_cases()[case['i']]
+    entry = message_cases()[case['i']]
+    name, target, spec = entry[:3]
+    needs = entry[3] if len(entry) > 3 else []
     try:
         glom.glom(target, spec)
         return {'name': name, 'raised': False}
@@ -354,6 +380,7 @@ def run_message(case):
             out['str_failed'] = type(ee).__name__
             return out
         tl = text.split('\n')
+        out['missing'] = [x for x in needs if x not in text]
         out['has_trace'] = len(tl) > 2 and tl[1] == ' Target-spec trace (most recent last):'
         out['first_is_target'] = len(tl) > 2 and tl[2].startswith(' - Target: ')
         try:
@@ -476,6 +503,8 @@ def direct_oracle(case, out):
             return 'str() of the %s raised for %s fails with %s' % (out['cls'], out['name'], out['str_failed'])
         if not out['has_trace'] or not out['first_is_target'] or not out.get('first_is_root', True):
             return 'no target-spec trace beginning with the root target (%s)' % out['name']
+        if out.get('missing'):
+            return 'the trace of %s does not show %r' % (out['name'], out['missing'])
         if not out['last_ok']:
             return 'the message does not end with the original error (%s): %r' % (out['name'], out['last'])
         if not out['width_ok']:
